@@ -264,18 +264,22 @@ func stubReply(ctx context.Context, req *stack.StubRequest, p plan, c *mcache.Ca
 		}
 		return rep
 	default: // fail
-		if p.ZoneFail != "" && c != nil {
-			// what Resolver.recordResolutionZoneFailure does when every
-			// server of the zone failed
-			if fs, ok := c.Store().(middleware.ResolutionFailureStore); ok {
-				fs.RecordZoneFailure(req.Q, p.ZoneFail)
-			}
-		}
 		rc := p.Rcode
 		if rc == 0 {
 			rc = dns.RcodeServerFailure
 		}
 		rep := &stack.StubReply{Rcode: rc}
+		if p.ZoneFail != "" && c != nil {
+			// what Resolver.recordResolutionZoneFailure does when every
+			// server of the zone failed — at the END of the resolution
+			// (after any gate), just before the SERVFAIL is written
+			q, zone := req.Q, p.ZoneFail
+			rep.After = func(context.Context, *dns.Msg) {
+				if fs, ok := c.Store().(middleware.ResolutionFailureStore); ok {
+					fs.RecordZoneFailure(q, zone)
+				}
+			}
+		}
 		if p.EDE > 0 {
 			rep.EDE = &dns.EDNS0_EDE{InfoCode: uint16(p.EDE - 1), ExtraText: "upstream"}
 		}
